@@ -213,6 +213,12 @@ def layers(tier):
         for lo in range(0, ns, 8):
             jobs.append({'gen': {'gen': 'str', 'alpha': 'ab', 'maxlen': 4}, 'tok': spec, 'sizes': [1, 2, 3, 4],
                          'lo': lo, 'hi': lo + 8, 'pres': pres})
+            # blanks are token material for q-gram tokenizers: whitespace-only strings are not empty strings
+            jobs.append({'gen': {'gen': 'str', 'alpha': 'a ', 'maxlen': 4}, 'tok': spec, 'sizes': [1, 2, 3],
+                         'lo': lo, 'hi': lo + 8, 'pres': pres})
+    for lo in range(0, 40, 8):
+        jobs.append({'gen': {'gen': 'str', 'alpha': ' ,x', 'maxlen': 3}, 'tok': ['delim', [','], True], 'sizes': [1, 2],
+                     'lo': lo, 'hi': lo + 8, 'pres': pres})
     Ls.append(Layer('overlap-pairs', 'checks.c06:w_overlap_pairs', jobs,
                     'OverlapFilter.filter_pair on all ordered pairs of subsets of %d tokens (plus a '
                     'delimiter-only string) x overlap_size 1..%d x {>=,>,=}, and on all pairs of STR({a,b},4) '
